@@ -1792,9 +1792,11 @@ class DynDiGraph(nx.DiGraph):
         H.add_nodes_from(self)
 
         if reciprocal is True:
+            # every unordered pair once (self-loops included): by position, node ids need not be orderable
+            rank = {n: k for k, n in enumerate(self._node)}
             for u in self._node:
                 for v in self._node:
-                    if u >= v:
+                    if rank[u] >= rank[v]:
                         try:
                             outc = self._succ[u][v]['t']
                             intc = self._pred[u][v]['t']
